@@ -88,6 +88,13 @@ C09PopCases(len, lags, steps, solvers, kindsets) ==
         \A p, q \in 1..Len(cs.m.edges) : (cs.m.kind[cs.m.edges[p].s] = cs.m.kind[cs.m.edges[q].s])
                                             => cs.m.edges[p].lag = cs.m.edges[q].lag }
 
+(* three delayed edge groups leaving one (vectorised) source variable towards three target node kinds *)
+C09ThreeTargetCases(steps, solvers) ==
+  { [m |-> Mk(<<2, 0, 0, 0, 0>>, <<0, 2, 0, 0, 0>>, <<0, 1, 0, 7, 3>>, <<<<>>, <<>>, <<>>, <<>>, <<>>>>, <<1, 1, 2, 3, 4>>,
+             <<Ed(1, 3, 2, l[1]), Ed(2, 3, 6, l[2]), Ed(1, 4, 0 - 4, l[3]), Ed(2, 5, 10, l[4])>>),
+     cfg |-> Cfg(steps, 1, 0, sv, ve)] :
+        l \in {<<2, 3, 4, 2>>, <<3, 2, 2, 4>>, <<2, 2, 3, 4>>, <<4, 3, 2, 3>>}, sv \in solvers, ve \in BOOLEAN }
+
 (* an undelayed *global* (scalar-weight) Connectivity whose source variable also feeds a delayed matrix Connectivity:
    populations p1 = {1, 2} (sources), p2 = {3, 4}, p3 = {5, 6} *)
 C09PopGlobalCases(lags, steps) ==
